@@ -61,6 +61,15 @@ def cases(tier, rng):
     for c, k, n, procs in ([("tcp", 4, 4000000, 1), ("tcp", 8, 2000000, 1), ("ws", 4, 2000000, 2)] + ([("kcp", 4, 500000, 1), ("stdio", 4, 1000000, 2), ("tcp", 8, 500000, 1)] if thorough else [])):
         line = "c01par %s %d %d %d" % (c, k, n, procs)
         cs.append({"line": line, "key": line, "model": False, "tags": {"carrier": c, "k": k, "sc": "parallel", "n": n}})
+    for c, k, n, procs in [("tcp", 4, 600000, 1), ("tcp", 4, 600000, 2)]:      # ... and in the copy loops' logging variant
+        line = "c01par %s %d %d %d debug" % (c, k, n, procs)
+        cs.append({"line": line, "key": line, "model": False, "tags": {"carrier": c, "k": k, "sc": "parallel-debug", "n": n}})
+    # the session is lost (its carrier cut without the connection being marked closed) and several applications connect at the same time:
+    # each gets a connection that carries data - none is ended by the reconnection another one triggers (harness op c16c, see C16)
+    for line in ("c16c 0 1 okinsecure round 1 svc cut round 4 svc svc svc svc round 2 svc svc",
+                 "c16c 0 2 okinsecure okinsecure round 2 svc svc cut round 6 svc svc svc svc svc svc cut round 3 svc svc svc",
+                 "c16c 0 1 okinsecure round 2 svc svc cut round 2 svc svc cut round 2 svc svc cut round 5 svc svc svc svc svc"):
+        cs.append({"line": line, "key": line, "model": False, "tags": {"carrier": "tcp", "k": 6, "sc": "reconnect-together"}})
     # the real per-session handler (and the real client in front of it) over an in-memory carrier, driven by scripts of environment events and
     # compared token for token with the handler model (Mux/Handler.v): one connection ends in every way - closed by the application, by the
     # target, target failure, dial failing at once or late while a NEWER connection is open, channel refused, stream dropped before selection,
@@ -79,7 +88,12 @@ def oracle(case, impl):
         return _h.oracle(case, impl, "isolation")
     t = case["tags"]
     p = impl.split()
-    if t["sc"] == "parallel":
+    if t["sc"] == "reconnect-together":
+        from . import c16 as _c16
+        mine = ("stream-dead-on-return", "refusal-cut-others", "live-streams-cut", "no-reconnect", "unbounded", "panic", "crash")
+        return [("disturbed-by-other-connection;scenario=reconnect-together;" + sig.split(";")[0], text)
+                for sig, text in _c16.oracle_concurrent(case, impl) if sig.split(";")[0] in mine]
+    if t["sc"] in ("parallel", "parallel-debug"):
         if not p or p[0] != "c":
             return [("crash;carrier=" + t["carrier"], "scenario crashed: " + impl[:150])]
         out = []
